@@ -189,23 +189,124 @@ Theorem C01_at_id_examples :
 Proof. exact parse_int64_examples. Qed.
 Print Assumptions C01_at_id_examples.
 
-(* ---------- 12. non-vacuity, on the IEEE binary64 instance ---------- *)
-Theorem C01_example_add_wraps :
-  arith primfo OAdd (VInt KI64 (2 ^ 63 - 1)) (VInt KI64 1) = Ok (VInt KI64 (- 2 ^ 63)).
+(* ---------- 12. non-vacuity: for every float_ops record, in particular the IEEE binary64
+   instance primfo (stated generically so that no primitive-float constant is assumed) ---------- *)
+Theorem C01_example_add_wraps : forall fo,
+  arith fo OAdd (VInt KI64 (2 ^ 63 - 1)) (VInt KI64 1) = Ok (VInt KI64 (- 2 ^ 63)).
 Proof. exact ex_add_wraps. Qed.
 Print Assumptions C01_example_add_wraps.
 
-Theorem C01_example_compare_exact_above_2_53 :
-  compare primfo CEq (VInt KI64 (2 ^ 53 + 1)) (VInt KI64 (2 ^ 53)) = Some false.
+Theorem C01_example_compare_exact_above_2_53 : forall fo,
+  compare fo CEq (VInt KI64 (2 ^ 53 + 1)) (VInt KI64 (2 ^ 53)) = Some false.
 Proof. exact ex_compare_exact_above_2_53. Qed.
 Print Assumptions C01_example_compare_exact_above_2_53.
 
-Theorem C01_example_div_truncates :
-  arith primfo ODiv (VInt KI64 (-7)) (VInt KI64 2) = Ok (VInt KI64 (-3)).
+Theorem C01_example_div_truncates : forall fo,
+  arith fo ODiv (VInt KI64 (-7)) (VInt KI64 2) = Ok (VInt KI64 (-3)).
 Proof. exact ex_div_truncates. Qed.
 Print Assumptions C01_example_div_truncates.
 
-Theorem C01_example_signed_below_unsigned :
-  compare primfo CLt (VInt KI64 (-1)) (VUint KU64 (2 ^ 64 - 1)) = Some true.
+Theorem C01_example_signed_below_unsigned : forall fo,
+  compare fo CLt (VInt KI64 (-1)) (VUint KU64 (2 ^ 64 - 1)) = Some true.
 Proof. exact ex_mixed_compare. Qed.
 Print Assumptions C01_example_signed_below_unsigned.
+
+(* ---------- 10. compositionality: an expression has a value only if every operand had one and
+   the operator applied; both operands are always evaluated, the left one first; an operand's
+   error is the expression's error ---------- *)
+Theorem C01_arith_node_value : forall fo meta real_of p o l r e v e',
+  eval_mexpr fo meta real_of (MBin p o l r) e = (Ok v, e') ->
+  exists lv rv e1, eval_mexpr fo meta real_of l e = (Ok lv, e1) /\
+                   eval_mexpr fo meta real_of r e1 = (Ok rv, e') /\ arith fo o lv rv = Ok v.
+Proof. exact eval_mexpr_bin_ok. Qed.
+Print Assumptions C01_arith_node_value.
+
+Theorem C01_compare_node_value : forall fo meta real_of p o l r e v e',
+  eval_expr fo meta real_of (ECmp p o l r) e = (Ok v, e') ->
+  exists lv rv e1 b, eval_expr fo meta real_of l e = (Ok lv, e1) /\
+                     eval_expr fo meta real_of r e1 = (Ok rv, e') /\
+                     compare fo o lv rv = Some b /\ v = VBool b.
+Proof. exact eval_expr_cmp_ok. Qed.
+Print Assumptions C01_compare_node_value.
+
+Theorem C01_logic_node_value : forall fo meta real_of p o l r e v e',
+  eval_expr fo meta real_of (ELogic p o l r) e = (Ok v, e') ->
+  exists lv rv e1 b, eval_expr fo meta real_of l e = (Ok lv, e1) /\
+                     eval_expr fo meta real_of r e1 = (Ok rv, e') /\
+                     logic fo o lv rv = Some b /\ v = VBool b.
+Proof. exact eval_expr_logic_ok. Qed.
+Print Assumptions C01_logic_node_value.
+
+Theorem C01_math_node_value : forall fo meta real_of p m e v e',
+  eval_expr fo meta real_of (EMath p m) e = (Ok v, e') ->
+  eval_mexpr fo meta real_of m e = (Ok v, e') /\ v <> VNil.
+Proof. exact eval_expr_math_ok. Qed.
+Print Assumptions C01_math_node_value.
+
+Theorem C01_paren_node_value : forall fo meta real_of p neg x e v e',
+  eval_expr fo meta real_of (EParen p neg x) e = (Ok v, e') ->
+  exists w, eval_expr fo meta real_of x e = (Ok w, e') /\ finish fo p neg w = Ok v.
+Proof. exact eval_expr_paren_ok. Qed.
+Print Assumptions C01_paren_node_value.
+
+Theorem C01_atom_node_value : forall fo meta real_of p neg a e v e',
+  eval_expr fo meta real_of (EAtom p neg a) e = (Ok v, e') ->
+  exists w, eval_atom fo meta real_of a e = (Ok w, e') /\ finish fo p neg w = Ok v.
+Proof. exact eval_expr_atom_ok. Qed.
+Print Assumptions C01_atom_node_value.
+
+Theorem C01_arith_node_applies_operator : forall fo meta real_of p o l r e lv e1 rv e2,
+  eval_mexpr fo meta real_of l e = (Ok lv, e1) -> eval_mexpr fo meta real_of r e1 = (Ok rv, e2) ->
+  eval_mexpr fo meta real_of (MBin p o l r) e = (wrap p (arith fo o lv rv), e2).
+Proof. exact eval_mexpr_bin_step. Qed.
+Print Assumptions C01_arith_node_applies_operator.
+
+Theorem C01_compare_node_applies_operator : forall fo meta real_of p o l r e lv e1 rv e2,
+  eval_expr fo meta real_of l e = (Ok lv, e1) -> eval_expr fo meta real_of r e1 = (Ok rv, e2) ->
+  eval_expr fo meta real_of (ECmp p o l r) e =
+  (match compare fo o lv rv with Some b => Ok (VBool b) | None => Err [p] end, e2).
+Proof. exact eval_expr_cmp_step. Qed.
+Print Assumptions C01_compare_node_applies_operator.
+
+Theorem C01_logic_node_applies_operator : forall fo meta real_of p o l r e lv e1 rv e2,
+  eval_expr fo meta real_of l e = (Ok lv, e1) -> eval_expr fo meta real_of r e1 = (Ok rv, e2) ->
+  eval_expr fo meta real_of (ELogic p o l r) e =
+  (match logic fo o lv rv with Some b => Ok (VBool b) | None => Err [p] end, e2).
+Proof. exact eval_expr_logic_step. Qed.
+Print Assumptions C01_logic_node_applies_operator.
+
+Theorem C01_error_propagates_left : forall fo meta real_of p o l r e c e1,
+  eval_mexpr fo meta real_of l e = (Err c, e1) ->
+  eval_mexpr fo meta real_of (MBin p o l r) e = (Err c, e1).
+Proof. exact mexpr_error_left. Qed.
+Print Assumptions C01_error_propagates_left.
+
+Theorem C01_error_propagates_right : forall fo meta real_of p o l r e lv e1 c e2,
+  eval_mexpr fo meta real_of l e = (Ok lv, e1) -> eval_mexpr fo meta real_of r e1 = (Err c, e2) ->
+  eval_mexpr fo meta real_of (MBin p o l r) e = (Err c, e2).
+Proof. exact mexpr_error_right. Qed.
+Print Assumptions C01_error_propagates_right.
+
+Theorem C01_compare_error_propagates_left : forall fo meta real_of p o l r e c e1,
+  eval_expr fo meta real_of l e = (Err c, e1) ->
+  eval_expr fo meta real_of (ECmp p o l r) e = (Err c, e1).
+Proof. exact cmp_error_left. Qed.
+Print Assumptions C01_compare_error_propagates_left.
+
+Theorem C01_compare_error_propagates_right : forall fo meta real_of p o l r e lv e1 c e2,
+  eval_expr fo meta real_of l e = (Ok lv, e1) -> eval_expr fo meta real_of r e1 = (Err c, e2) ->
+  eval_expr fo meta real_of (ECmp p o l r) e = (Err c, e2).
+Proof. exact cmp_error_right. Qed.
+Print Assumptions C01_compare_error_propagates_right.
+
+Theorem C01_logic_error_propagates_left : forall fo meta real_of p o l r e c e1,
+  eval_expr fo meta real_of l e = (Err c, e1) ->
+  eval_expr fo meta real_of (ELogic p o l r) e = (Err c, e1).
+Proof. exact logic_error_left. Qed.
+Print Assumptions C01_logic_error_propagates_left.
+
+Theorem C01_logic_error_propagates_right : forall fo meta real_of p o l r e lv e1 c e2,
+  eval_expr fo meta real_of l e = (Ok lv, e1) -> eval_expr fo meta real_of r e1 = (Err c, e2) ->
+  eval_expr fo meta real_of (ELogic p o l r) e = (Err c, e2).
+Proof. exact logic_error_right. Qed.
+Print Assumptions C01_logic_error_propagates_right.
